@@ -133,7 +133,7 @@ def run(ctx):
         'one goroutine; a private counter file value per case (not the process-wide default file); CounterTime and build info fixed; '
         'the time.AfterFunc rotation timer is replaced by explicit rotate calls',
         'step budget: every atomic operation, lock acquisition and shimmed call of internal/counter, internal/upload and internal/telemetry counts as one step; '
-        'a call that exceeds the budget (20000 for counter calls, 200000 for upload.Run; fault-free calls need < 2500) is a hang',
+        'a call that exceeds the budget (20000 for counter calls under fault plans, 100000 on corrupt files — 32 times the number of record slots of the file —, 200000 for upload.Run; fault-free calls need < 2500) is a hang',
         'the class an outcome must have is taken from the documentation (rotate1/openMapped/weekEnd/Add/Dir.Mode/createReport comments); where it is silent '
         '(e.g. an Add after its own growth failed, a name longer than 4096 bytes inside the file, an unaligned or too large limit) only the universal clauses are decided',
         'the uploader clause "a count file is deleted only if a report of its week exists" is the documented behaviour of createReport, used as the outcome class of upload.Run under faults',
@@ -319,13 +319,16 @@ def corrupt_replay(ctx, rng, r, pool):
     sel = []
     if ctx.thorough():
         slow = [v for v in vectors if cyclic(v[0], v[1])]
-        sel = [v for v in vectors if not cyclic(v[0], v[1])] + (rng.sample(slow, 6000) if len(slow) > 6000 else slow)
+        sel = [v for v in vectors if not cyclic(v[0], v[1])] + (rng.sample(slow, 1500) if len(slow) > 1500 else slow)
     else:
         lo = [v for v in vectors if damage(v[0]) <= 2 or v[0]['hdr'] != 'ok' or v[0]['trunc'] != 'none']
         hi = [v for v in vectors if not (damage(v[0]) <= 2 or v[0]['hdr'] != 'ok' or v[0]['trunc'] != 'none')]
         slow = [v for v in hi if cyclic(v[0], v[1])]
         fast = [v for v in hi if not cyclic(v[0], v[1])]
-        sel = lo + rng.sample(fast, min(len(fast), 5000)) + rng.sample(slow, min(len(slow), 300))
+        lo_fast = [v for v in lo if not cyclic(v[0], v[1])]
+        lo_slow = [v for v in lo if cyclic(v[0], v[1])]
+        lo_slow = rng.sample(lo_slow, min(len(lo_slow), 40))
+        sel = lo_fast + lo_slow + rng.sample(fast, min(len(fast), 5000)) + rng.sample(slow, min(len(slow), 20))
     cases = []
     for (f, op, exp) in sel:
         c = dict(f)
@@ -337,10 +340,23 @@ def corrupt_replay(ctx, rng, r, pool):
         c.update(id=len(cases) + 1, op=['addE', 'addN', 'addM'][k % 3], rand=rng.randrange(1, 1 << 40))
         cases.append(c)
     ctx.log('corrupt files to replay: %d enumerated + %d random' % (nenum, len(cases) - nenum))
-    recs, out = gather(sharded(ctx, pool, './internal/counter', 'TestVerifC05Corrupt', {'budget': 3000}, 'cases', cases, ctx.pick(3, 5)))
+    recs, out = gather(sharded(ctx, pool, './internal/counter', 'TestVerifC05Corrupt', {'budget': 100000, 'maxHangs': ctx.pick(12, 400)}, 'cases', cases, ctx.pick(3, 5)))
     res = {x['id']: x for x in recs if x.get('kind') == 'case'}
-    if len(res) != len(cases):
+    skipped = {x['id'] for x in recs if x.get('kind') == 'skipped'}
+    if len(res) + len(skipped) != len(cases):
         raise Infra('C05: %d results for %d corrupt files\n%s' % (len(res), len(cases), out[-2000:]))
+    if skipped:
+        ctx.log('%d corrupt files with a cyclic chain were not run (cap on calls that never return)' % len(skipped))
+        ctx.cov['corrupt_files_skipped'] = len(skipped)
+        renum, keep = {}, []
+        for c in cases:
+            if c['id'] in res:
+                keep.append(c)
+        nenum = sum(1 for c in keep if not c['rand'])
+        for k, c in enumerate(keep):
+            renum[k + 1] = res[c['id']]
+            c['id'] = k + 1
+        cases, res = keep, renum
     return cases, res, nenum
 
 
